@@ -60,6 +60,14 @@ def tracingCalls : List String := ["tracing.StartSpanFromContext", "span.Finish"
 theorem C23_before_data :
     ∀ f ∈ apiFns, (∀ b ∈ f.before, b ∈ tracingCalls) ∧ f.note = "" := by decide
 
+/-- The same fact with the SITE in the statement: the translator lists, with file:line and function,
+every statement between function entry and the gate that is not span/tracing set-up (assignments,
+calls, and conditionals that can skip or precede the gate) and every `validate` call that is not a
+checked top-level gate.  When the list is not empty the failing goal printed by Lean is the list
+itself, e.g. `["api.go:941 Import: if-statement … before the state gate calling …"] = []`. -/
+theorem C23_before_data_sites : gateOffences = [] := by
+  unfold gateOffences; decide
+
 /-- Every API method the HTTP layer calls is an extracted, classified request entry point. -/
 theorem C23_handlers_classified :
     ∀ n ∈ handlerCalls, (apiFns.any (fun f => f.name = n)) = true ∧
